@@ -63,3 +63,18 @@ META["C07"] = {
         "bins <= 8 in the explicit-state part, <= 50 in real runs; dimensions <= 2",
     ],
 }
+
+META["C13"] = {
+    "level": "exploration",
+    "tiers": {
+        "quick": {"shards": 3, "deadline_s": 200,
+                  "bounds": "all sequences of 0..3 results over (calls,E,S) in {2,10,1000}x{-3,-1e-3,0,1/2,1,1e6}x{1e-6,1e-3,0.1,1,10,1e3} plus the empty result (float: |E|<=1e3, S>=1e-3); all sequences of length 4 over the reduced alphabet {2,1000}x{-3,0,1,1e3}x{1e-3,1,1e3}+empty; every sequence also against its sorted permutation; 0..2 distributions of 2 bins; 3 types"},
+        "thorough": {"shards": 3, "deadline_s": 1500,
+                     "bounds": "as quick plus length 5 over the reduced alphabet and length 4 over a medium alphabet (41 results)"},
+    },
+    "rule": "nested enumeration of result sequences (every order of every multiset is enumerated, and each is compared with its sorted order); non-trivial = at least two results; distinct = distinct (type, sequence)",
+    "assumptions": [
+        "reference formulas in long double on the (value, variance) recovered from each input through the library's accessors; tolerance 32 eps scaled by the conditioning E^2/((N-1)S^2) of the conversion, inputs whose recovered variance is not positive or whose conditioning exceeds 1e-2/eps are skipped and counted",
+        "chi^2/dof is compared only for sequences without empty results (positive variances, as in the property)",
+    ],
+}
